@@ -84,6 +84,15 @@ def overlap_mechanism(faults, same_target, i, t):
     return False
 
 
+def first_per_mechanism(fails):
+    seen, out = set(), []
+    for f in fails:
+        if f["mechanism"] not in seen:
+            seen.add(f["mechanism"])
+            out.append(f)
+    return out
+
+
 def gen_endpoints(rng, n_pool=6):
     pool = sorted(rng.sample(range(1, 13), rng.randint(2, n_pool)))
     return [p * S // 2 * 1 for p in pool]     # multiples of 0.5 s
@@ -274,7 +283,10 @@ def attribute_overlap(c, obs, f):
 
 def encode_reg(c, obs):
     cfg = [(int(k), v) for k, v in sorted(c["cfg"].items())]
-    return term((KINDS[c["kind"]], cfg, [win_term(f) for f in c["faults"]], [tuple(s) for s in obs]))
+    by_t = {}
+    for t, x, v in obs:
+        by_t.setdefault(t, []).append((x, v))
+    return term((KINDS[c["kind"]], cfg, [win_term(f) for f in c["faults"]], sorted(by_t.items())))
 
 
 def nontrivial_overlap(c, obs):
@@ -282,11 +294,543 @@ def nontrivial_overlap(c, obs):
     return any(i != j and a["tgt"] == b["tgt"] and covers(b, a["s"]) for i, a in enumerate(fs) for j, b in enumerate(fs))
 
 
+# --------------------------------------------------------------------------- partitions
+NODES = 4
+
+
+def gen_part(rng):
+    pool = gen_endpoints(rng)
+    mal = rng.random() < 0.06
+    faults = []
+    for _ in range(rng.randint(1, 4)):
+        s, e, c = gen_window(rng, pool, malformed_ok=mal)
+        nodes = list(range(NODES))
+        rng.shuffle(nodes)
+        if rng.random() < 0.15:
+            ga = rng.sample(nodes, rng.randint(1, 2))
+            gb = rng.sample(nodes, rng.randint(1, 2))      # groups may share a node
+        else:
+            k = rng.randint(1, 2)
+            ga, gb = nodes[:k], nodes[k:k + rng.randint(1, 2)]
+        faults.append(dict(k="part", ga=ga, gb=gb, asym=rng.random() < 0.3, s=s, e=e, c=c))
+    return dict(faults=faults)
+
+
+def part_pairs(f):
+    prod = [(a, b) for a in f["ga"] for b in f["gb"]]
+    if f["asym"]:
+        return set(), set(prod)
+    return {(min(a, b), max(a, b)) for a, b in prod}, set()
+
+
+def separates(f, a, b):
+    bi, di = part_pairs(f)
+    return (min(a, b), max(a, b)) in bi or (a, b) in di
+
+
+def impl_part(c):
+    from happysimulator.components.network.link import NetworkLink
+    from happysimulator.components.network.network import Network
+    from happysimulator.core.entity import Entity
+    from happysimulator.core.simulation import Simulation
+    from happysimulator.core.temporal import Instant
+    from happysimulator.distributions.constant import ConstantLatency
+    from happysimulator.faults import NetworkPartition
+
+    got = []
+
+    class Node(Entity):
+        def handle_event(self, event):
+            m = event.context["metadata"]
+            got.append((m["sent"], m["src"], m["dst"]))
+            return None
+
+    nodes = [Node(f"n{x}") for x in range(NODES)]
+    net = Network("net", default_link=None)
+    for a in range(NODES):
+        for b in range(NODES):
+            if a != b:
+                net.add_link(nodes[a], nodes[b], NetworkLink(f"l{a}{b}", latency=ConstantLatency(0.125)))
+
+    def make(f):
+        return NetworkPartition([f"n{x}" for x in f["ga"]], [f"n{x}" for x in f["gb"]],
+                                start=secs(f["s"]), end=secs(f["e"]), asymmetric=f["asym"])
+
+    fs, handles = build_schedule(c["faults"], make)
+    times = probe_times(c["faults"])
+    sim = Simulation(end_time=Instant(max(times) + 2 * S), entities=nodes + [net], fault_schedule=fs)
+    arm_cancels(sim, c["faults"], handles)
+    samples, sizes, sent = [], [], []
+
+    def probe(t):
+        out = []
+        for a in range(NODES):
+            for b in range(NODES):
+                if a == b:
+                    continue
+                samples.append([t, a, b, bool(net.is_partitioned(f"n{a}", f"n{b}"))])
+                ev = net.send(nodes[a], nodes[b], "pkt", payload=dict(sent=t, src=a, dst=b))
+                sent.append((t, a, b))
+                out.append(ev)
+        sizes.append([t, len(net._partitioned_pairs), len(net._directed_partitions)])
+        return out
+
+    add_probes(sim, times, probe)
+    sim.run()
+    gs = set(got)
+    return dict(samples=samples, sizes=sizes, delivered=[[t, a, b, (t, a, b) in gs] for t, a, b in sent],
+                dropped=net.events_dropped_partition)
+
+
+def oracle_part(c, obs):
+    faults = c["faults"]
+    if any(malformed(f) for f in faults):
+        return []
+    out = []
+    deliv = {(t, a, b): d for t, a, b, d in obs["delivered"]}
+    for t, a, b, v in obs["samples"]:
+        cov = [i for i, f in enumerate(faults) if separates(f, a, b) and covers(f, t)]
+        if deliv[(t, a, b)] == v:
+            out.append(dict(clause="a partition blocks traffic between its groups exactly while it is in force",
+                            mechanism="delivery-disagrees-with-is_partitioned", t=t, src=a, dst=b, partitioned=v))
+            break
+        if not cov and v:
+            out.append(dict(clause="once every window has ended the target is back to its configured state",
+                            mechanism="partition-outside-window", t=t, src=a, dst=b))
+            break
+        if cov and not v:
+            undone = any(overlap_mechanism(faults, lambda x, y: separates(y, a, b), i, t) for i in cov)
+            out.append(dict(clause="a partition is in effect for its target exactly while at least one fault window covering that target is active, whatever other faults overlap it",
+                            mechanism="overlap-deactivate-restores-original:part" if undone else "effect-missing-inside-window",
+                            t=t, src=a, dst=b,
+                            what="pair not partitioned although a partition window covering it is active: Partition.heal of an overlapping window removed the shared pair from the network's set"))
+            break
+    return out
+
+
+def encode_part(c, obs):
+    by_t = {}
+    for t, a, b, v in obs["samples"]:
+        by_t.setdefault(t, []).append((a, b, v))
+    return term(([win_term(f) for f in c["faults"]], [(t, by_t[t], nb, nd) for t, nb, nd in obs["sizes"]]))
+
+
+def nontrivial_part(c, obs):
+    fs = c["faults"]
+    return any(i != j and covers(b, a["s"]) and (part_pairs(a)[0] & part_pairs(b)[0] or part_pairs(a)[1] & part_pairs(b)[1])
+               for i, a in enumerate(fs) for j, b in enumerate(fs))
+
+
+# --------------------------------------------------------------------------- capacity
+def gen_cap(rng):
+    pool = gen_endpoints(rng)
+    orig = rng.choice([4, 8, 10, 12])
+    faults = []
+    for _ in range(rng.randint(1, 3)):
+        s, e, c = gen_window(rng, pool, malformed_ok=rng.random() < 0.05)
+        faults.append(dict(k="cap", tgt=0, s=s, e=e, p=rng.choice([1, 2, 2, 3, 4]), c=c))
+    wl, grants = [], 0
+    tmax = max(pool) + S
+    times = sorted(rng.sample(range(1, 4 * tmax // S), min(rng.randint(0, 10), 4 * tmax // S - 1)))
+    for i, k in enumerate(times):
+        t = k * Q + 7 + i                       # never on a fault instant
+        if grants and rng.random() < 0.4:
+            wl.append([t, "rel", rng.randrange(grants)])
+        else:
+            wl.append([t, "try", rng.choice([1, 2, 3, 5, orig, orig + 1, 0]) if rng.random() < 0.3 else rng.randint(1, max(1, orig // 2))])
+            grants += 1
+    return dict(orig=orig, faults=faults, wl=wl)
+
+
+def impl_cap(c):
+    from happysimulator.components.resource import Resource
+    from happysimulator.core.event import Event
+    from happysimulator.core.simulation import Simulation
+    from happysimulator.core.temporal import Instant
+    from happysimulator.faults import ReduceCapacity
+    import logging
+    logging.getLogger("happysimulator.components.resource").setLevel(logging.ERROR)
+
+    res = Resource("r", capacity=c["orig"])
+    other = Resource("other", capacity=c["orig"])
+    fs, handles = build_schedule(c["faults"], lambda f: ReduceCapacity("r", factor=f["p"] / 4, start=secs(f["s"]), end=secs(f["e"])))
+    wl = c["wl"]
+    tmax = max([x for f in c["faults"] for x in (f["s"], f["e"])] + [w[0] for w in wl]) + S
+    sim = Simulation(end_time=Instant(tmax + S), entities=[res, other], fault_schedule=fs)
+    arm_cancels(sim, c["faults"], handles)
+    log, grants = [], []
+    state = dict(held=0)
+
+    def snap(what, result, extra=None):
+        cap, av = res.capacity * 4, res.available * 4
+        ok = float(cap).is_integer() and float(av).is_integer()
+        log.append(dict(what=what, cap=int(cap) if ok else -1, avail=int(av) if ok else -1, res=result,
+                        held=state["held"] * 4, other=[other.capacity, other.available], t=sim._clock.now.nanoseconds))
+
+    # observe the fault closures themselves: wrap each fault event's callback entity
+    for h in handles:
+        for ev in h._events:
+            ent = ev.target
+            orig_fn = ent._fn
+
+            def wrapped(e, orig_fn=orig_fn):
+                r = orig_fn(e)
+                snap("fault:" + e.event_type.split(":")[0], 0)
+                return r
+            ent._fn = wrapped
+
+    def do(op):
+        def fn(e):
+            if op[1] == "try":
+                try:
+                    g = res.try_acquire(op[2])
+                except ValueError:
+                    grants.append(None)
+                    snap("try", 2)
+                    return
+                grants.append(g)
+                if g is not None:
+                    state["held"] += op[2]
+                snap("try", 1 if g is not None else 0)
+            else:
+                g = grants[op[2]] if op[2] < len(grants) else None
+                if g is None or g.released:
+                    return                              # nothing to release: no operation
+                try:
+                    g.release()
+                    state["held"] -= g.amount
+                    snap("rel", 0)
+                except ValueError:
+                    snap("rel", 2)
+        return fn
+
+    for op in wl:
+        sim.schedule(Event.once(time=Instant(op[0]), event_type="wl", fn=do(op)))
+    sim.run()
+    for g in grants:                                    # silence Grant.__del__ warnings
+        if g is not None:
+            g._released = True
+    # which workload ops were real operations (release of a missing/released grant is skipped)
+    return dict(log=log, final=[int(res.capacity * 4) if float(res.capacity * 4).is_integer() else -1,
+                                int(res.available * 4) if float(res.available * 4).is_integer() else -1])
+
+
+def cap_ops_effective(c, obs):
+    """Workload ops in the form the model takes: (time, CTry amt*4 | CRel amt*4), dropping releases that
+    the driver skipped (no such grant / already released) — recomputed from the case alone."""
+    out, grants, log_i = [], [], 0
+    wl_log = [e for e in obs["log"] if not e["what"].startswith("fault")]
+    for op in c["wl"]:
+        if op[1] == "try":
+            e = wl_log[log_i]; log_i += 1
+            grants.append(dict(amt=op[2], live=e["res"] == 1))
+            out.append((op[0], Ctor("CTry", op[2] * 4)))
+        else:
+            g = grants[op[2]] if op[2] < len(grants) else None
+            if g is None or not g["live"]:
+                continue
+            e = wl_log[log_i]; log_i += 1
+            g["live"] = False          # Grant.release marks released even when _do_release raises
+            out.append((op[0], Ctor("CRel", g["amt"] * 4)))
+    return out
+
+
+def encode_cap(c, obs):
+    return term((c["orig"] * 4, [win_term(f) for f in c["faults"]], cap_ops_effective(c, obs),
+                 [(e["cap"], e["avail"], e["res"]) for e in obs["log"]]))
+
+
+def oracle_cap(c, obs):
+    faults = c["faults"]
+    if any(malformed(f) for f in faults):
+        return []
+    out = []
+    orig4 = c["orig"] * 4
+    held_at_activate = False
+    log = obs["log"]
+    for n, e in enumerate(log):
+        t = e["t"]
+        if e["what"] == "fault:fault.capacity.reduce" and e["held"] > 0:
+            held_at_activate = True
+        if n + 1 < len(log) and log[n + 1]["t"] == t and log[n + 1]["what"].startswith("fault"):
+            continue                                  # another fault closure of the same instant follows
+        if e["other"] != [c["orig"], c["orig"]]:
+            return [dict(clause="other entities are unaffected", mechanism="bystander-resource-changed", t=t)]
+        cov = [i for i, f in enumerate(faults) if covers(f, t)]
+        allowed = {orig4 * faults[i]["p"] // 4 for i in cov} if cov else {orig4}
+        if e["cap"] not in allowed:
+            undone = bool(cov) and e["cap"] == orig4 and any(overlap_mechanism(faults, lambda a, b: True, i, t) for i in cov)
+            out.append(dict(clause="reduced capacity is in effect exactly while at least one fault window covering the resource is active, whatever other faults overlap it" if cov else "once every window has ended the target is back to its configured state",
+                            mechanism="overlap-deactivate-restores-original:cap" if undone else "capacity-wrong",
+                            t=t, got=e["cap"], allowed=sorted(allowed),
+                            what="capacity not reduced although a ReduceCapacity window is active: the deactivation closure of an overlapping window restored the original capacity"))
+            break
+        if e["avail"] + e["held"] != e["cap"] and not (cov and e["avail"] + e["held"] > e["cap"] and e["avail"] == max(0, e["cap"] - e["held"])):
+            # allowed transient: during a reduction more may be HELD than the reduced capacity (grants are not revoked),
+            # then available must be max(0, cap - held)
+            out.append(dict(clause="reduced capacity is in effect during the window and once every window has ended the resource is back to its configured state (available + held = capacity)",
+                            mechanism="capacity-accounting-ignores-held" if held_at_activate else
+                            ("overlap-activate-replaces:cap" if stacked_activation(faults, t) else "capacity-accounting"),
+                            t=t, cap=e["cap"], avail=e["avail"], held=e["held"], active=bool(cov),
+                            what="available + held != capacity: ReduceCapacity.activate clamps available to the new capacity without subtracting what is held, deactivate then adds the full difference back"))
+            break
+    return out
+
+
+def stacked_activation(faults, t):
+    """Some window was activated (not after t) while another window was already in force."""
+    for i, fi in enumerate(faults):
+        if not act_delivered(fi) or fi["s"] > t:
+            continue
+        for j, fj in enumerate(faults):
+            if j != i and act_delivered(fj) and key_on(j, fj) < key_on(i, fi) and \
+                    (fj["e"] is None or not deact_delivered(fj) or key_off(j, fj) > key_on(i, fi)):
+                return True
+    return False
+
+
+def attribute_cap(c, obs, f):
+    m = f.get("mechanism", "")
+    if m in ("overlap-deactivate-restores-original:cap", "overlap-activate-replaces:cap"):
+        return "C06-overlap-cap"
+    if m == "capacity-accounting-ignores-held":
+        return "C06-capacity-held-ignored"
+    return None
+
+
+def attribute_part(c, obs, f):
+    if f.get("mechanism") == "overlap-deactivate-restores-original:part":
+        return "C06-overlap-part"
+    return None
+
+
+# --------------------------------------------------------------------------- crash workload (plain generator entity)
+def gen_crashwl(rng, queued=False):
+    pool = gen_endpoints(rng)
+    faults = []
+    for _ in range(rng.randint(1, 3)):
+        s, e, c = gen_window(rng, pool, allow_perm=True)
+        faults.append(dict(k="crash", tgt=0, s=s, e=e, p=0, c=c, pause=bool(e is not None and rng.random() < 0.5)))
+    arrs = []
+    tmax = max(pool) + S
+    n = rng.randint(1, 8)
+    ks = sorted(rng.sample(range(0, 4 * tmax // S), min(n, 4 * tmax // S)))
+    for pid, k in enumerate(ks):
+        on_edge = rng.random() < 0.25
+        t = rng.choice(pool) if on_edge and not queued else k * Q + 3 + pid
+        if queued:
+            arrs.append([t, pid, rng.choice([Q, 2 * Q, 4 * Q, 6 * Q])])
+        else:
+            arrs.append([t, pid, [rng.choice([Q, 2 * Q, 4 * Q]) for _ in range(rng.randint(0, 3))]])
+    arrs.sort(key=lambda a: (a[0], a[1]))
+    if not queued:
+        for i, a in enumerate(arrs):
+            a[1] = i
+    return dict(faults=faults, arrs=arrs)
+
+
+def _crash_fault(f, name):
+    from happysimulator.faults import CrashNode, PauseNode
+    if f["e"] is None:
+        return CrashNode(name, at=secs(f["s"]))
+    if f["pause"]:
+        return PauseNode(name, start=secs(f["s"]), end=secs(f["e"]))
+    return CrashNode(name, at=secs(f["s"]), restart_at=secs(f["e"]))
+
+
+def impl_plain(c):
+    from happysimulator.core.entity import Entity
+    from happysimulator.core.event import Event
+    from happysimulator.core.simulation import Simulation
+    from happysimulator.core.temporal import Instant
+
+    class Proc(Entity):
+        def __init__(self, name):
+            super().__init__(name)
+            self.log = []
+
+        def handle_event(self, event):
+            m = event.context["metadata"]
+            self.log.append([self.now.nanoseconds, m["pid"], 0, bool(getattr(self, "_crashed", False))])
+            for k, d in enumerate(m["ds"], 1):
+                yield d / S
+                self.log.append([self.now.nanoseconds, m["pid"], k, bool(getattr(self, "_crashed", False))])
+            return []
+
+    tgt, by = Proc("tgt"), Proc("bystander")
+    fs, handles = build_schedule(c["faults"], lambda f: _crash_fault(f, "tgt"))
+    tmax = max([x for f in c["faults"] for x in (f["s"], f["e"] or 0, f["c"] or 0)] + [a[0] + sum(a[2]) for a in c["arrs"]]) + S
+    sim = Simulation(end_time=Instant(tmax + S), entities=[tgt, by], fault_schedule=fs)
+    arm_cancels(sim, c["faults"], handles)
+    for t, pid, ds in c["arrs"]:
+        for ent in (tgt, by):
+            ev = Event(time=Instant(t), event_type="req", target=ent)
+            ev.context["metadata"].update(pid=pid, ds=ds)
+            sim.schedule(ev)
+    sim.run()
+    order = {a[1]: i for i, a in enumerate(c["arrs"])}
+    key = lambda r: (order[r[1]], r[2])
+    return dict(tgt=sorted(tgt.log, key=key), by=sorted(by.log, key=key))
+
+
+def crash_flag_overlap(faults, t):
+    cov = [i for i, f in enumerate(faults) if covers(f, t)]
+    return any(overlap_mechanism(faults, lambda a, b: True, i, t) for i in cov)
+
+
+def oracle_plain(c, obs):
+    faults = c["faults"]
+    out = []
+    # bystander: exactly the fault-free behaviour
+    exp = []
+    for t, pid, ds in c["arrs"]:
+        exp.append([t, pid, 0, False])
+        acc = t
+        for k, d in enumerate(ds, 1):
+            acc += d
+            exp.append([acc, pid, k, False])
+    if obs["by"] != exp:
+        return [dict(clause="other entities are unaffected", mechanism="bystander-log-differs", got=obs["by"][:6], expected=exp[:6])]
+    entered = {r[1] for r in obs["tgt"] if r[2] == 0}
+    for t, pid, k, flag in obs["tgt"]:
+        if any(covers(f, t) for f in faults):
+            if k >= 1:
+                entry_t = next(a[0] for a in c["arrs"] if a[1] == pid)
+                inflight = not any(covers(f, entry_t) for f in faults) or crash_flag_overlap(faults, entry_t)
+                out.append(dict(clause="while an entity is crashed or paused it executes nothing: no in-flight process advances",
+                                mechanism="inflight-process-resumed-while-crashed" if inflight else "resume-while-crashed",
+                                t=t, pid=pid, step=k,
+                                what="a generator process that had yielded before the crash is resumed during the crash window: ProcessContinuation.invoke has no _crashed test"))
+            else:
+                out.append(dict(clause="while an entity is crashed or paused it executes nothing: no handler runs",
+                                mechanism="overlap-deactivate-restores-original:crash" if (not flag and crash_flag_overlap(faults, t)) else "handler-entry-while-crashed",
+                                t=t, pid=pid,
+                                what="crash fault not in effect although a window covering the target is active: the deactivation closure of an overlapping window wrote the configured value back"))
+    for t, pid, ds in c["arrs"]:
+        if not any(covers(f, t) for f in faults) and pid not in entered:
+            out.append(dict(clause="processing resumes from the restart time", mechanism="dropped-outside-window", t=t, pid=pid))
+            break
+    return first_per_mechanism(out)
+
+
+def attribute_plain(c, obs, f):
+    m = f.get("mechanism", "")
+    if m == "inflight-process-resumed-while-crashed":
+        return "C06-inflight-process-runs-while-crashed"
+    if m == "overlap-deactivate-restores-original:crash":
+        return "C06-overlap-crash"
+    if m == "queued-item-started-while-crashed":
+        return "C06-queued-work-starts-while-crashed"
+    return None
+
+
+def encode_plain(c, obs):
+    return term(([win_term(f) for f in c["faults"]], 0, [(a[0], a[1], a[2]) for a in c["arrs"]],
+                 [(r[0], r[1], r[2]) for r in obs["tgt"]]))
+
+
+# --------------------------------------------------------------------------- crash workload (queue-fronted entity)
+def impl_qr(c):
+    from happysimulator.components.queued_resource import QueuedResource
+    from happysimulator.core.event import Event
+    from happysimulator.core.simulation import Simulation
+    from happysimulator.core.temporal import Instant
+
+    class Server(QueuedResource):
+        def __init__(self, name):
+            super().__init__(name)
+            self.busy = 0
+            self.log = []
+
+        def has_capacity(self):
+            return self.busy < 1
+
+        def handle_queued_event(self, event):
+            m = event.context["metadata"]
+            self.busy += 1
+            self.log.append([self.now.nanoseconds, m["pid"], 0, bool(getattr(self, "_crashed", False))])
+            yield m["d"] / S
+            self.log.append([self.now.nanoseconds, m["pid"], 1, bool(getattr(self, "_crashed", False))])
+            self.busy -= 1
+            return []
+
+    tgt, by = Server("tgt"), Server("bystander")
+    fs, handles = build_schedule(c["faults"], lambda f: _crash_fault(f, "tgt"))
+    tmax = max([x for f in c["faults"] for x in (f["s"], f["e"] or 0, f["c"] or 0)] + [a[0] for a in c["arrs"]]) + sum(a[2] for a in c["arrs"]) + S
+    sim = Simulation(end_time=Instant(tmax + S), entities=[tgt, by], fault_schedule=fs)
+    arm_cancels(sim, c["faults"], handles)
+    for t, pid, d in c["arrs"]:
+        for ent in (tgt, by):
+            ev = Event(time=Instant(t), event_type="req", target=ent)
+            ev.context["metadata"].update(pid=pid, d=d)
+            sim.schedule(ev)
+    sim.run()
+    return dict(tgt=tgt.log, by=by.log, depth=tgt.depth)
+
+
+def fifo_serve(arrs):
+    out, free = [], 0
+    for t, pid, d in arrs:
+        st = max(t, free)
+        out += [[st, pid, 0, False], [st + d, pid, 1, False]]
+        free = st + d
+    return out
+
+
+def oracle_qr(c, obs):
+    faults = c["faults"]
+    if obs["by"] != fifo_serve(c["arrs"]):
+        return [dict(clause="other entities are unaffected", mechanism="bystander-log-differs", got=obs["by"][:6])]
+    out = []
+    arr_t = {a[1]: a[0] for a in c["arrs"]}
+    entry_t = {r[1]: r[0] for r in obs["tgt"] if r[2] == 0}
+    for t, pid, k, flag in obs["tgt"]:
+        if any(covers(f, t) for f in faults):
+            accepted_before = not any(covers(f, arr_t[pid]) for f in faults) or crash_flag_overlap(faults, arr_t[pid])
+            if k == 0:
+                out.append(dict(clause="while an entity is crashed or paused it executes nothing: no handler runs (queue-fronted target)",
+                                mechanism="queued-item-started-while-crashed" if accepted_before and flag else
+                                ("overlap-deactivate-restores-original:crash" if not flag and crash_flag_overlap(faults, t) else "handler-entry-while-crashed"),
+                                t=t, pid=pid,
+                                what="a QueuedResource hands queued work to its worker while it is crashed: the _crashed flag sits on the resource, the driver delivers to the internal worker adapter, which Event.invoke does not see as crashed"))
+            else:
+                started_ok = not any(covers(f, entry_t[pid]) for f in faults) or crash_flag_overlap(faults, entry_t[pid])
+                out.append(dict(clause="while an entity is crashed or paused it executes nothing: no in-flight process advances",
+                                mechanism="inflight-process-resumed-while-crashed" if started_ok else "queued-item-started-while-crashed",
+                                t=t, pid=pid,
+                                what="a generator process that had yielded before the crash is resumed during the crash window: ProcessContinuation.invoke has no _crashed test"))
+    for t, pid, d in c["arrs"]:
+        if not any(covers(f, t) for f in faults) and pid not in entry_t:
+            out.append(dict(clause="processing resumes from the restart time", mechanism="accepted-work-never-served", t=t, pid=pid))
+            break
+    return first_per_mechanism(out)
+
+
+def encode_qr(c, obs):
+    return term(([win_term(f) for f in c["faults"]], 0, [tuple(a) for a in c["arrs"]], [(r[0], r[1], r[2]) for r in obs["tgt"]]))
+
+
+def gen_qr(rng):
+    return gen_crashwl(rng, queued=True)
+
+
 # --------------------------------------------------------------------------- families
 FAMILIES = [
-    Family("reg", IMPORTS, "ok_reg", "Z * list (Z * Z) * list win * list (Z * Z * Z)", gen_reg, impl_reg,
+    Family("reg", IMPORTS, "ok_reg", "Z * list (Z * Z) * list win * list (Z * list (Z * Z))", gen_reg, impl_reg,
            encode_reg, oracle_reg, nontrivial_overlap, attribute_overlap, parallel=True,
            describe=lambda c: f"{c['kind']},faults={len(c['faults'])}"),
+    Family("part", IMPORTS, "ok_part", "list win * list (Z * list (Z * Z * bool) * Z * Z)", gen_part, impl_part,
+           encode_part, oracle_part, nontrivial_part, attribute_part, parallel=True,
+           describe=lambda c: f"faults={len(c['faults'])}"),
+    Family("cap", IMPORTS, "ok_cap", "Z * list win * list (Z * cop) * list (Z * Z * Z)", gen_cap, impl_cap,
+           encode_cap, oracle_cap, lambda c, o: any(e["held"] > 0 and e["what"].startswith("fault") for e in o["log"]),
+           attribute_cap, parallel=True, describe=lambda c: f"faults={len(c['faults'])},ops={len(c['wl'])}"),
+    Family("plain", IMPORTS, "ok_plain", "list win * Z * list arrival * list (Z * Z * Z)", gen_crashwl, impl_plain,
+           encode_plain, oracle_plain, lambda c, o: any(r[3] for r in o["tgt"]), attribute_plain, parallel=True,
+           describe=lambda c: f"faults={len(c['faults'])},arrivals={len(c['arrs'])}"),
+    Family("qr", IMPORTS, "ok_qr", "list win * Z * list (Z * Z * Z) * list (Z * Z * Z)", gen_qr, impl_qr,
+           encode_qr, oracle_qr, lambda c, o: any(r[3] for r in o["tgt"]), attribute_plain, parallel=True,
+           describe=lambda c: f"faults={len(c['faults'])},arrivals={len(c['arrs'])}"),
 ]
 
 TRUSTED = [
@@ -297,7 +841,7 @@ TRUSTED = [
     "model choices: names are Z; loss rates in 1/16, capacities in 1/4 units, latencies in ns on a dyadic grid so that the float arithmetic of the closures is exact",
 ]
 
-PROOF_FILES = ["C06/Model.v", "C06/Registers.v", "C06/Props.v"]
+PROOF_FILES = ["C06/Model.v", "C06/Registers.v", "C06/Partition.v", "C06/Capacity.v", "C06/Dispatch.v", "C06/Props.v"]
 
 
 def run(ctx):
